@@ -162,7 +162,7 @@ CARRY_EXTRA = {      # sink -> (extra allowed operations, reason)
     "IntegerType.format": (_FORMAT, "as above"),
     "NumberType.format": (_FORMAT, "as above"),
     "ArrayType.items": (_RECURSE, "the item schema is converted recursively"),
-    "ArrayType.unique_items": ([r"option::Option::<T>::unwrap_or$"], "absent uniqueItems means false in both dialects"),
+    "ArrayType.unique_items": ([r"option::Option::<T>::unwrap_or$", r"option::Option::<T>::unwrap_or_default$"], "absent uniqueItems means false in both dialects (`unwrap_or(false)` and `unwrap_or_default()` of an Option<bool> alike)"),
     "ObjectType.properties": (_COLLECT + _RECURSE, "each property schema is converted recursively"),
     "ObjectType.required": (_COLLECT, "set -> list"),
     "ObjectType.additional_properties": (_RECURSE, "schema form is converted recursively"),
